@@ -102,6 +102,7 @@ SPECS = {
     "C08": dict(modules=["Ovldverif.Props.C08"], streams=["graph", "graph_deep"], oracle="C08"),
     "C15": dict(modules=["Ovldverif.Props.C15"], streams=["annotations"], oracle="C15"),
     "C14": dict(modules=["Ovldverif.Props.C14"], streams=["annotations", "fn_types"], oracle="C14"),
+    "C19": dict(modules=["Ovldverif.Props.C19Build", "Ovldverif.Props.C19Lookup"], streams=["conc"], oracle="C19"),
     "C17": dict(modules=["Ovldverif.Props.C17", "Ovldverif.Props.C08", "Ovldverif.Props.C16"], streams=["classes"], oracle="C17"),
 }
 
@@ -123,6 +124,7 @@ STREAMS = {
     "build": ("check_build", "worker", lambda seed, n: (seed + 59, 2 * n, {}), "I"),
     "annotations": ("corr_b", "worker", lambda seed, n: (seed + 67, n, {}), "B"),
     "fn_types": ("check_fn", "worker", lambda seed, n: (seed + 71, n, {"static_only": True, "type_args": True, "simple_sigs": True}), "F"),
+    "conc": ("check_conc", "worker", lambda seed, n: (seed + 73, max(2, n // 8), {}), "K"),
     "classes": ("corr_j", "worker", lambda seed, n: (seed + 61, n, {}), "J"),
     "graph": ("check_graph", "worker", lambda seed, n: (seed + 19, n, {}), "G"),
     "graph_deep": ("check_graph", "worker", lambda seed, n: (seed + 23, n, {"nnodes": 6, "recurse_bias": 0.6}), "G"),
